@@ -519,9 +519,18 @@ fn do_case(rep: &mut Report, req: &Req, src: &str) {
             json!({"packet": if req.is_event() { "event" } else { "ack" }, "bytes": hex(&b)}),
         );
     }
-    if rep.evaluations % 4999 == 1 {
-        let l: String = req.line().chars().take(160).collect();
-        rep.sample(json!({"request": l, "impl": ans}));
+    // samples: one per source class (the first accepted case of the class; for the classes that
+    // are errors by construction the first case), so that the 12 kept samples are not all
+    // `err InvalidPacket` lines of the status sweep
+    {
+        static SAMPLED: std::sync::Mutex<Vec<String>> = std::sync::Mutex::new(Vec::new());
+        let mut seen = SAMPLED.lock().unwrap();
+        let by_construction_err = src.contains("truncated") || src == "corpus" || src.starts_with("event-size-grid");
+        if !seen.iter().any(|x| x == src) && (ans.starts_with("ok") || by_construction_err) {
+            seen.push(src.to_string());
+            let l: String = req.line().chars().take(160).collect();
+            rep.sample(json!({"source": src, "request": l, "impl": ans}));
+        }
     }
     rep.expect(req.line(), ans);
 }
@@ -803,6 +812,34 @@ fn main() {
                 scd.truncate(present);
                 b.extend(scd);
                 do_case(&mut rep, &Req::Event(b), "event-size-grid");
+            }
+        }
+    }
+    // the same boundaries at a SECOND and a THIRD event (running totals of the walk: the sum of
+    // the sizes so far plus this size crosses scd_len / 2^16 only at a non-first event)
+    for n_before in [1usize, 2] {
+        for first in [12u16, 14] {
+            let before = first as usize * n_before;
+            for size in [0u16, 11, 12, 13, 0x7fff, 0xfff2 - (before as u16 - 12), 0xfff2, 0xfff3, 0xfff4, 0xffff] {
+                for scd_len in [before as u16 + 12, before as u16 + 14, 0xffff] {
+                    for present in [before + 12, before + 14, before + 28] {
+                        let mut b = header(EVENT_MAGIC, 0x4000, 0x0c00, scd_len, 5);
+                        let mut scd = vec![];
+                        for k in 0..n_before {
+                            scd.extend(first.to_le_bytes());
+                            scd.extend([0x20 + k as u8, 0]);
+                            scd.extend((0x1111_0000_0000_0000u64 + k as u64).to_le_bytes());
+                            scd.extend(pattern(first as usize - 12, k as u64));
+                        }
+                        scd.extend(size.to_le_bytes());
+                        scd.extend([0x10, 0]);
+                        scd.extend(0x0123_4567_89ab_cdefu64.to_le_bytes());
+                        scd.extend(pattern(28, 1));
+                        scd.truncate(present);
+                        b.extend(scd);
+                        do_case(&mut rep, &Req::Event(b), if n_before == 1 { "event-size-grid-2nd" } else { "event-size-grid-3rd" });
+                    }
+                }
             }
         }
     }
